@@ -709,9 +709,16 @@ func (r *Run) Finish() {
 		"violations":  len(newViol),
 	}
 	evDir := filepath.Join(Dir(), "evidence")
+	evName := r.ID + ".json"
+	part := os.Getenv("VERIF_PART")
+	if part != "" {
+		// one of several harness runs of this check: vx merges the parts into evidence/<id>.json
+		evDir = filepath.Join(evDir, ".parts")
+		evName = r.ID + "." + part + ".json"
+	}
 	os.MkdirAll(evDir, 0o755)
 	b, _ := json.MarshalIndent(ev, "", " ")
-	if err := os.WriteFile(filepath.Join(evDir, r.ID+".json"), append(b, '\n'), 0o644); err != nil {
+	if err := os.WriteFile(filepath.Join(evDir, evName), append(b, '\n'), 0o644); err != nil {
 		fmt.Fprintln(os.Stderr, "cannot write evidence:", err)
 		os.Exit(2)
 	}
@@ -729,7 +736,7 @@ func (r *Run) Finish() {
 		sum := sha256.Sum256([]byte(v.Sig))
 		p := filepath.Join(repDir, hex.EncodeToString(sum[:6])+".json")
 		rb, _ := json.MarshalIndent(map[string]any{"property": r.ID, "signature": v.Sig, "message": v.Msg,
-			"replay": v.Replay, "tier": r.Tier}, "", " ")
+			"replay": v.Replay, "tier": r.Tier, "part": part}, "", " ")
 		os.WriteFile(p, append(rb, '\n'), 0o644)
 		fmt.Printf("VIOLATION property=%s replay=%s\n", r.ID, p)
 		fmt.Printf("  signature: %s\n  %s\n", v.Sig, strings.ReplaceAll(v.Msg, "\n", "\n  "))
